@@ -32,6 +32,38 @@ def in_scope(fi: FuncInfo, modules: Iterable[str], functions: Optional[Iterable[
 from ..guards import strip_locals as _strip_locals
 
 
+def _short(key: str) -> str:
+    """Head and tail of a long canonical text: inlined locals make the head of different sites alike."""
+    return key if len(key) <= 110 else key[:66] + " .. " + key[-40:]
+
+
+def _vector_to_column(fi: FuncInfo, call: ast.Call) -> bool:
+    """X.reshape((len(X), 1)) / np.reshape(X, (X.shape[0], 1)): the target has as many rows as X has along its first axis and one
+    column, so the call only succeeds when X holds exactly that many entries (a vector or a single column): no order is involved."""
+    is_np = (dotted(call.func) or "").startswith(("np.", "numpy."))
+    if (dotted(call.func) or "").split(".")[-1] != "reshape" and not (isinstance(call.func, ast.Attribute) and call.func.attr == "reshape"):
+        return False
+    if is_np:
+        if len(call.args) < 2:
+            return False
+        x, shp = call.args[0], call.args[1]
+    else:
+        if not isinstance(call.func, ast.Attribute) or not call.args:
+            return False
+        x = call.func.value
+        shp = call.args[0] if len(call.args) == 1 else ast.Tuple(elts=list(call.args), ctx=ast.Load())
+    if not (isinstance(shp, (ast.Tuple, ast.List)) and len(shp.elts) == 2 and const(shp.elts[1]) == 1):
+        return False
+    n = shp.elts[0]
+    xt = fi.rtext(x)
+    if isinstance(n, ast.Call) and (dotted(n.func) or "") == "len" and n.args and fi.rtext(n.args[0]) == xt:
+        return True
+    if isinstance(n, ast.Subscript) and isinstance(n.value, ast.Attribute) and n.value.attr == "shape" and const(n.slice) == 0 \
+            and fi.rtext(n.value.value) == xt:
+        return True
+    return False
+
+
 def eo1(prog: Program, res: Result, select: Callable[[FuncInfo], bool]) -> None:
     """Explicit-order discipline on reshape-family sites."""
     f = facts(prog)
@@ -40,7 +72,7 @@ def eo1(prog: Program, res: Result, select: Callable[[FuncInfo], bool]) -> None:
             continue
         where = prog.loc(s.fi, s.call)
         if s.base in eo.IDX_HELPERS:
-            desc = f"index conversion uses first-index-fastest numbering: {s.key[:110]}"
+            desc = f"index conversion uses first-index-fastest numbering: {_short(s.key)}"
             if s.tag == "F":
                 res.ok("EO-1", s.fi.short, desc, where, "default order F" if not s.explicit else "order evaluates to F", nontrivial=s.explicit)
             elif s.tag == "C":
@@ -48,7 +80,7 @@ def eo1(prog: Program, res: Result, select: Callable[[FuncInfo], bool]) -> None:
             else:
                 res.undecided("EO-1", s.fi.short, desc, where, f"order expression {ast.unparse(s.order_expr)} not resolvable")
             continue
-        desc = f"array layout order is F: {s.key[:110]}"
+        desc = f"array layout order is F: {_short(s.key)}"
         if s.explicit:
             if s.tag == "F":
                 res.ok("EO-1", s.fi.short, desc, where, f"order={ast.unparse(s.order_expr)} evaluates to F")
@@ -63,7 +95,9 @@ def eo1(prog: Program, res: Result, select: Callable[[FuncInfo], bool]) -> None:
                 res.undecided("EO-1", s.fi.short, desc, where, f"order expression {ast.unparse(s.order_expr)} not resolvable")
         else:
             ex = [x for x in f["exceptions"] if x["function"] == s.fi.short and (x["key"] is None or _strip_locals(x["key"]) == _strip_locals(s.key))]
-            if ex:
+            if not ex and _vector_to_column(s.fi, s.call):
+                res.ok("EO-1", s.fi.short, desc, where, "reshape of X to (len(X), 1): only a vector fits, so the order is irrelevant", nontrivial=False)
+            elif ex:
                 res.ok("EO-1", s.fi.short, desc, where, "reviewed order-irrelevant site: " + ex[0]["reason"], nontrivial=False)
             else:
                 res.bad("EO-1", s.fi.short, desc, where,
@@ -169,15 +203,17 @@ def _perm_uses(fi: FuncInfo):
         base = nm.split(".")[-1] if nm else (c.func.attr if isinstance(c.func, ast.Attribute) else "")
         is_np = nm.startswith(("np.", "numpy."))
         if base == "transpose" and is_np and len(c.args) >= 2:
-            out.append(("transpose", c.args[1], c))
+            out.append(("transpose", fi.resolve(c.args[1]), c))
+        elif base == "transpose" and not is_np and isinstance(c.func, ast.Attribute) and len(c.args) == 1 and not isinstance(c.args[0], ast.Constant):
+            out.append(("transpose", fi.resolve(c.args[0]), c))          # x.transpose(perm)
         elif base == "permute" and c.args:
-            out.append(("transpose", c.args[0], c))
+            out.append(("transpose", fi.resolve(c.args[0]), c))
         elif base == "reshape":
             tgt = c.args[1] if (is_np and len(c.args) >= 2) else (c.args[0] if c.args and not is_np else None)
             if tgt is not None:
                 found = False
-                for n in ast.walk(tgt):
-                    if isinstance(n, ast.Subscript) and isinstance(n.slice, ast.Name) and "shape" in canon.text(n.value):
+                for n in ast.walk(fi.resolve(tgt)):
+                    if isinstance(n, ast.Subscript) and not isinstance(n.slice, (ast.Slice, ast.Constant, ast.Tuple)) and "shape" in ast.unparse(n.value):
                         out.append(("shape-select", n.slice, c))
                         found = True
                 if not found and isinstance(tgt, ast.Name) and tgt.id in canon.single:
@@ -233,32 +269,40 @@ def inv(prog: Program, res: Result, functions: Iterable[str]) -> None:
             if end == "raise":
                 continue
             did_f = did_i = False
-            skipped_by = []
+            decisions = []
             for kind, st in items:
                 if kind in ("stmt", "return"):
                     ids = {id(x) for x in ast.walk(st)}
                     did_f = did_f or bool(ids & fwd_nodes)
                     did_i = did_i or bool(ids & inv_nodes)
-                elif kind == "if-false" and any(id(x) in inv_nodes for b in st.body for x in ast.walk(b)):
-                    skipped_by.append(st.test)
+                elif kind in ("if-true", "if-false"):
+                    decisions.append((kind == "if-true", st.test))
             if not did_f:
                 continue
             n_paths += 1
             if did_i:
                 continue
+            # some decision on this path says that the permutation has at most one element
             trivial = False
-            for t in skipped_by:
-                if isinstance(t, ast.Compare) and len(t.ops) == 1 and isinstance(t.ops[0], ast.Gt) and const(t.comparators[0]) in (0, 1):
-                    l = t.left
+            for truth, t in decisions:
+                t = fi.resolve(t)
+                if isinstance(t, ast.Compare) and len(t.ops) == 1:
+                    l, op, r = t.left, t.ops[0], t.comparators[0]
                     sized = (isinstance(l, ast.Attribute) and l.attr == "size" and ast.unparse(l.value) in pnames) or \
                             (isinstance(l, ast.Call) and (dotted(l.func) or "").split(".")[-1] in ("len", "size") and l.args and ast.unparse(l.args[0]) in pnames)
-                    trivial = trivial or sized
+                    k = const(r)
+                    if sized and isinstance(k, int):
+                        small = (isinstance(op, ast.Gt) and k in (0, 1) and not truth) or (isinstance(op, ast.GtE) and k in (1, 2) and not truth) or \
+                                (isinstance(op, ast.LtE) and k in (0, 1) and truth) or (isinstance(op, ast.Lt) and k in (1, 2) and truth) or \
+                                (isinstance(op, ast.Eq) and k in (0, 1) and truth)
+                        trivial = trivial or small
             if not trivial:
-                bad_path = skipped_by[-1] if skipped_by else fi.node
+                last = [t for _tr, t in decisions]
+                bad_path = last[-1] if last else fi.node
         if bad_path is not None:
             txt = ast.unparse(bad_path)[:80] if isinstance(bad_path, ast.expr) else "(no test)"
             res.bad("INV", short, desc2, prog.loc(fi, bad_path),
-                    f"a returning path applies the forward layout but not the inverse; it is skipped under `not ({txt})`, which does not say that "
+                    f"a returning path applies the forward layout but not the inverse; no decision on it (last: `{txt}`) says that "
                     "the permutation is trivial: a one-sided (vectorised) matricisation still lists its modes in the given order")
         elif n_paths:
             res.ok("INV", short, desc2, prog.loc(fi), f"{n_paths} path(s)")
